@@ -126,6 +126,76 @@ func VH_C11_Session() {
 	n, err := sr.conn.Read(buf)
 	vReach("fresh-works")
 	vAssert(err == nil && n == 2 && vBytesEq(buf[:n], msg), "fresh connection does not carry data")
+	if vParam("cycles", 2) < 2 {
+		cn.Close()
+		sr.conn.Close()
+		s.stop()
+		return
+	}
+	// Second cycle: the rendezvous does not change any more, so Accept and
+	// Dial now take their refresh paths. Optionally the previous connection is
+	// closed while bytes handed over by the transport are still unread (raw
+	// write below the Noise layer, partially read): the next connection must
+	// start clean all the same.
+	sid1 := s.srv.sid
+	again()
+	if vBool("leftover") {
+		raw := []byte{0xa1, 0xa2, 0xa3}
+		go func() { d.conn.Write(raw) }()
+		one := make([]byte, 1)
+		k, err := a.conn.Read(one)
+		vAssert(err == nil && k == 1 && one[0] == 0xa1, "raw bytes do not arrive on the mailbox connection")
+	}
+	select {
+	case <-acc:
+		vAssert(false, "Accept handed out a further connection while the second one is still open")
+		return
+	case <-dia:
+		vAssert(false, "Dial handed out a further connection while the second one is still open")
+		return
+	case <-time.After(20 * time.Second):
+	}
+	if vBool("client_closes_2") {
+		cn.Close()
+		sr.conn.Close()
+	} else {
+		sr.conn.Close()
+		cn.Close()
+	}
+	deadline = time.After(300 * time.Second)
+	for got := 0; got < 2; {
+		select {
+		case a = <-acc:
+			got++
+		case d = <-dia:
+			got++
+		case <-deadline:
+			vAssert(false, "no fresh connection handed out after the second one was closed")
+			return
+		}
+	}
+	vAssert(a.err == nil && d.err == nil, "Accept/Dial failed after the second connection was closed")
+	if a.err != nil || d.err != nil {
+		return
+	}
+	vAssert(vIdealEq(s.srv.sid[:], sid1[:]) && vIdealEq(s.cli.sid[:], sid1[:]), "rendezvous changed again although the keys did not")
+	go func() { nc, _, err := s.srvNoise.ServerHandshake(a.conn); hs <- vConnResult{nc, err} }()
+	nc, _, err = s.cliNoise.ClientHandshake(s.ctx, "", d.conn)
+	cn = nc
+	sr = <-hs
+	vAssert(err == nil && sr.err == nil, "handshake on the refreshed connection failed")
+	if err != nil || sr.err != nil {
+		return
+	}
+	msg2 := vBytes("msg2", 2)
+	go func() { cn.Write(msg2) }()
+	n, err = sr.conn.Read(buf)
+	vAssert(err == nil && n == 2 && vBytesEq(buf[:n], msg2), "refreshed connection does not carry the client's data")
+	back := vBytes("back", 2)
+	go func() { sr.conn.Write(back) }()
+	n, err = cn.Read(buf)
+	vReach("refreshed-works")
+	vAssert(err == nil && n == 2 && vBytesEq(buf[:n], back), "refreshed connection does not carry the server's data")
 	cn.Close()
 	sr.conn.Close()
 	s.stop()
